@@ -418,19 +418,23 @@ theorem docAtoms_droppedCommaDoc (tc : Option WTok) : docAtoms (droppedCommaDoc 
   | none => simp [droppedCommaDoc, trailingCommaAtoms, docAtoms_addComment _ _ _ _ docAtoms_nil, docAtoms]
   | some t => simp [droppedCommaDoc, trailingCommaAtoms, docAtoms_commentsOnlyDoc]
 
+theorem docAtoms_scopeDoc (iw : Nat) (p : PolicyCst) :
+    docAtoms (scopeDoc iw p) = varDefAtomsW false true p.principal ++ wtokAtoms p.comma1 ++
+      varDefAtomsW false true p.action ++ wtokAtoms p.comma2 ++
+      varDefAtomsW false true p.resource ++ trailingCommaAtoms false true p.trailingComma := by
+  unfold scopeDoc
+  split <;>
+    simp [docAtoms, docAtoms_varDefDoc, docAtoms_droppedCommaDoc, docAtoms_tokDoc _ .space docAtoms_space,
+      docAtoms_tokDoc _ .hardline docAtoms_hardline]
+
 /-- the document of a policy carries the source atoms in source order, minus trailing `,` tokens -/
 theorem policyToDoc_atoms (iw : Nat) (p : PolicyCst) : docAtoms (policyToDoc iw p) = policyAtomsW false true p := by
-  have heff : docAtoms (leadingDoc p.effect.leading) ++ docAtoms (tokDoc p.effect.noLead Doc.nil) = wtokAtoms p.effect := by
-    rw [docAtoms_leadingDoc, docAtoms_tokDoc _ .nil docAtoms_nil, ← wtokAtoms_noLead]
-  have hrp : ∀ next, docAtoms next = [] → docAtoms (tokDoc p.rp next) = wtokAtoms p.rp := fun next h => docAtoms_tokDoc _ next h
-  have hrp' : docAtoms (tokDoc p.rp (if p.conds.isEmpty then .nil else .hardline)) = wtokAtoms p.rp := by
-    apply hrp; split <;> simp [docAtoms]
+  have hrp : docAtoms (tokDoc p.rp (if p.conds.isEmpty then .nil else .hardline)) = wtokAtoms p.rp := by
+    apply docAtoms_tokDoc; split <;> simp [docAtoms]
   unfold policyToDoc policyAtomsW
-  simp only [doc_append, docAtoms, hrp', docAtoms_annotsDoc, docAtoms_condsDoc, docAtoms_tokDoc _ .nil docAtoms_nil]
-  split <;>
-    (simp [docAtoms, docAtoms_varDefDoc, docAtoms_droppedCommaDoc, docAtoms_tokDoc _ .space docAtoms_space,
-      docAtoms_tokDoc _ .hardline docAtoms_hardline, docAtoms_tokDoc _ .nil docAtoms_nil, docAtoms_leadingDoc]
-     rw [wtokAtoms_noLead p.effect]; simp)
+  simp only [doc_append, docAtoms, hrp, docAtoms_annotsDoc, docAtoms_condsDoc, docAtoms_tokDoc _ .nil docAtoms_nil,
+    docAtoms_scopeDoc, docAtoms_leadingDoc]
+  rw [wtokAtoms_noLead p.effect]; simp
 
 theorem docAtoms_policiesToDoc (iw : Nat) (ps : List PolicyCst) : docAtoms (policiesToDoc iw ps) = policiesAtomsW false true ps := by
   induction ps with
@@ -478,5 +482,202 @@ theorem policies_comments_kept (ps : List PolicyCst) : commentsOf (policiesAtoms
   induction ps with
   | nil => simp [policiesAtomsW]
   | cons p ps ih => simp [policiesAtomsW, commentsOf_append, policy_comments_kept, ih]
+
+/-! comment safety at the policy level -/
+
+theorem docSafe_hardline' : docSafe false Doc.hardline = some false := by simp [docSafe]
+theorem docSafe_space' : docSafe false Doc.space = some false := by simp [docSafe]
+
+theorem docSafe_trailingDoc (t : List Char) (next : Doc) (hn : docSafe false next = some false) :
+    docSafe false (trailingDoc t next) = some false := by
+  unfold trailingDoc; split <;> simp [docSafe, hn]
+
+theorem docSafe_annotDoc (a : AnnotCst) : docSafe false (annotDoc a) = some false := by
+  obtain ⟨atT, key, value⟩ := a
+  cases value with
+  | none => simp [annotDoc, docSafe, docSafe_tokDoc _ .nil docSafe_nil]
+  | some v =>
+    obtain ⟨l, v, r⟩ := v
+    simp [annotDoc, docSafe, docSafe_tokDoc _ .nil docSafe_nil, docSafe_tokDoc _ .hardline docSafe_hardline']
+
+theorem docSafe_annotsDoc (as : List AnnotCst) : docSafe false (annotsDoc as) = some false := by
+  induction as with
+  | nil => simp [annotsDoc, docSafe]
+  | cons a as ih => simp [annotsDoc, docSafe, docSafe_annotDoc, ih]
+
+theorem docSafe_isPartDoc (iw : Nat) (x : Option (WTok × Cst)) : docSafe false (isPartDoc iw x) = some false := by
+  cases x with
+  | none => simp [isPartDoc, docSafe]
+  | some x =>
+    obtain ⟨isT, ty⟩ := x
+    simp [isPartDoc, docSafe, docSafe_tokDoc _ .nil docSafe_nil, toDocFixed,
+      docSafe_addComment _ _ _ _ (toDocW_safe true iw ty) docSafe_nil]
+
+theorem docSafe_varDefDoc (iw : Nat) (v : VarDefCst) : docSafe false (varDefDoc iw v) = some false := by
+  obtain ⟨var, isPart, ineq⟩ := v
+  cases ineq with
+  | none => simp [varDefDoc, docSafe, docSafe_tokDoc _ .nil docSafe_nil, docSafe_isPartDoc]
+  | some x =>
+    obtain ⟨op, rhs⟩ := x
+    simp [varDefDoc, docSafe, docSafe_tokDoc _ .nil docSafe_nil, docSafe_isPartDoc, docSafe_leadingDoc,
+      docSafe_trailingDoc _ _ docSafe_nil, toDocFixed, toDocW_safe]
+
+theorem docSafe_condDoc (iw : Nat) (c : CondCst) : docSafe false (condDoc iw c) = some false := by
+  obtain ⟨kw, lb, expr, rb⟩ := c
+  have hkw : docSafe false (addComment (.text (.tok kw.text)) [] [] .nil) = some false :=
+    docSafe_addComment _ _ _ _ (by simp [docSafe]) docSafe_nil
+  cases expr with
+  | none =>
+    simp [condDoc, docSafe, docSafe_tokDoc _ .nil docSafe_nil, docSafe_leadingDoc, docSafe_trailingDoc _ _ docSafe_line, hkw]
+  | some e =>
+    simp [condDoc, docSafe, docSafe_tokDoc _ .nil docSafe_nil, docSafe_leadingDoc, docSafe_trailingDoc _ _ docSafe_line, hkw,
+      toDocFixed, toDocW_safe]
+
+theorem docSafe_condsDoc (iw : Nat) (cs : List CondCst) : docSafe false (condsDoc iw cs) = some false := by
+  induction cs with
+  | nil => simp [condsDoc, docSafe]
+  | cons c cs ih =>
+    cases cs with
+    | nil => simp [condsDoc, docSafe_condDoc]
+    | cons c' cs' => simp [condsDoc, docSafe, docSafe_condDoc] at ih ⊢; exact ih
+
+theorem docSafe_droppedCommaDoc (tc : Option WTok) : docSafe false (droppedCommaDoc tc) = some false := by
+  cases tc with
+  | none => simp [droppedCommaDoc, docSafe_addComment _ _ _ _ docSafe_nil docSafe_nil]
+  | some t => simp [droppedCommaDoc, commentsOnlyDoc, docSafe_addComment _ _ _ _ docSafe_nil docSafe_nil]
+
+theorem docSafe_scopeDoc (iw : Nat) (p : PolicyCst) : docSafe false (scopeDoc iw p) = some false := by
+  unfold scopeDoc
+  split <;>
+    simp [docSafe, docSafe_varDefDoc, docSafe_droppedCommaDoc, docSafe_tokDoc _ .space docSafe_space',
+      docSafe_tokDoc _ .hardline docSafe_hardline']
+
+/-- in the document of a policy every comment is followed by a hardline before the next token -/
+theorem policyToDoc_safe (iw : Nat) (p : PolicyCst) : docSafe false (policyToDoc iw p) = some false := by
+  have hrp : docSafe false (tokDoc p.rp (if p.conds.isEmpty then .nil else .hardline)) = some false := by
+    apply docSafe_tokDoc; split <;> simp [docSafe]
+  unfold policyToDoc
+  simp only [doc_append, docSafe, hrp, docSafe_annotsDoc, docSafe_condsDoc, docSafe_tokDoc _ .nil docSafe_nil, docSafe_leadingDoc,
+    docSafe_scopeDoc]
+
+/-- the concatenation of comment-safe layouts that each end a line is comment-safe -/
+theorem itemsVisible_append_nl (a : List Item) (as : List Atom) (i : Nat) (b : List Item) (bs : List Atom) :
+    ∀ p, itemsVisible p a = some as → itemsVisible false b = some bs →
+      itemsVisible p (a ++ (.nl i :: b)) = some (as ++ bs) := by
+  induction a generalizing as with
+  | nil => intro p ha hb; simp [itemsVisible] at ha; subst ha; simp [itemsVisible, hb]
+  | cons x a ih =>
+    intro p ha hb
+    cases x with
+    | atom at' =>
+      cases at' with
+      | tok t =>
+        cases p <;> simp [itemsVisible] at ha
+        obtain ⟨as', h1, h2⟩ := ha
+        subst h2
+        simp [itemsVisible, ih as' false h1 hb]
+      | com c =>
+        cases p <;> simp [itemsVisible] at ha
+        obtain ⟨as', h1, h2⟩ := ha
+        subst h2
+        simp [itemsVisible, ih as' true h1 hb]
+    | sp => simp only [itemsVisible, List.cons_append] at ha ⊢; exact ih as p ha hb
+    | nl j => simp only [itemsVisible, List.cons_append] at ha ⊢; exact ih as false ha hb
+
+theorem itemsVisible_eofItems (eof : List (List Char)) : itemsVisible false (eofItems eof) = some (eof.map Atom.com) := by
+  induction eof with
+  | nil => simp [eofItems, itemsVisible]
+  | cons c cs ih => simp [eofItems, itemsVisible, ih]
+
+theorem policiesAtomsW_flatten (kt kc : Bool) (ps : List PolicyCst) :
+    policiesAtomsW kt kc ps = (ps.map (policyAtomsW kt kc)).flatten := by
+  induction ps with
+  | nil => simp [policiesAtomsW]
+  | cons p ps ih => simp [policiesAtomsW, ih]
+
+theorem itemsVisible_joinPolicies (f : PolicyCst → List Item) (g : PolicyCst → List Atom)
+    (h : ∀ p, itemsVisible false (f p) = some (g p)) (ps : List PolicyCst) :
+    itemsVisible false (joinPolicies (ps.map f)) = some ((ps.map g).flatten) := by
+  induction ps with
+  | nil => simp [joinPolicies, itemsVisible]
+  | cons p ps ih =>
+    cases ps with
+    | nil => simp [joinPolicies, h]
+    | cons p' ps' =>
+      have ih' : itemsVisible false (Item.nl 0 :: joinPolicies ((p' :: ps').map f)) = some (((p' :: ps').map g).flatten) := by
+        simpa [itemsVisible] using ih
+      have := itemsVisible_append_nl (f p) (g p) 0 _ _ false (h p) ih'
+      simpa [joinPolicies] using this
+
+/-! only trailing `,` tokens are dropped: the kept atoms are a subsequence of the source -/
+
+theorem wtokComments_sublist (t : WTok) : (wtokComments t).Sublist (wtokAtoms t) := by
+  simp only [wtokComments, wtokAtoms, List.append_assoc]
+  exact List.Sublist.append (List.Sublist.refl _) (List.sublist_append_right _ _)
+
+theorem trailingComma_sublist (tc : Option WTok) : (trailingCommaAtoms false true tc).Sublist (trailingCommaAtoms true true tc) := by
+  cases tc with
+  | none => exact List.Sublist.refl _
+  | some t => simpa [trailingCommaAtoms] using wtokComments_sublist t
+
+/-- splits a goal `(a ++ b ++ …).Sublist (a' ++ b' ++ …)` componentwise -/
+local macro "sublist_parts" : tactic =>
+  `(tactic| repeat' (first | exact List.Sublist.refl _ | assumption | exact trailingComma_sublist _ | apply List.Sublist.append))
+
+mutual
+theorem cst_sublist : ∀ c : Cst, (cstAtomsW false true c).Sublist (cstAtomsW true true c)
+  | .leaf t => by simp [cstAtomsW]
+  | .paren l e r => by have := cst_sublist e; simp only [cstAtomsW]; sublist_parts
+  | .unary ops e => by have := cst_sublist e; simp only [cstAtomsW]; sublist_parts
+  | .chain k first rest => by
+    have := cst_sublist first; have := chain_sublist rest; simp only [cstAtomsW]; sublist_parts
+  | .rel a op b => by have := cst_sublist a; have := cst_sublist b; simp only [cstAtomsW]; sublist_parts
+  | .isIn a isT ty inT e => by
+    have := cst_sublist a; have := cst_sublist ty; have := cst_sublist e; simp only [cstAtomsW]; sublist_parts
+  | .ite i c t a e b => by
+    have := cst_sublist c; have := cst_sublist a; have := cst_sublist b; simp only [cstAtomsW]; sublist_parts
+  | .brack l args r => by have := args_sublist args; simp only [cstAtomsW]; sublist_parts
+  | .recInit k colon v => by have := cst_sublist k; have := cst_sublist v; simp only [cstAtomsW]; sublist_parts
+  | .member item accs => by have := cst_sublist item; have := accs_sublist accs; simp only [cstAtomsW]; sublist_parts
+theorem args_sublist : ∀ a : Args, (argsAtomsW false true a).Sublist (argsAtomsW true true a)
+  | .nil => by simp [argsAtomsW]
+  | .last e tc => by have := cst_sublist e; simp only [argsAtomsW]; sublist_parts
+  | .cons e comma rest => by have := cst_sublist e; have := args_sublist rest; simp only [argsAtomsW]; sublist_parts
+theorem chain_sublist : ∀ c : Chain, (chainAtomsW false true c).Sublist (chainAtomsW true true c)
+  | .nil => by simp [chainAtomsW]
+  | .cons op e rest => by have := cst_sublist e; have := chain_sublist rest; simp only [chainAtomsW]; sublist_parts
+theorem accs_sublist : ∀ a : Accs, (accsAtomsW false true a).Sublist (accsAtomsW true true a)
+  | .nil => by simp [accsAtomsW]
+  | .field dot name rest => by have := accs_sublist rest; simp only [accsAtomsW]; sublist_parts
+  | .call l args r rest => by have := args_sublist args; have := accs_sublist rest; simp only [accsAtomsW]; sublist_parts
+  | .index l e r rest => by have := cst_sublist e; have := accs_sublist rest; simp only [accsAtomsW]; sublist_parts
+end
+
+theorem varDef_sublist (v : VarDefCst) : (varDefAtomsW false true v).Sublist (varDefAtomsW true true v) := by
+  obtain ⟨var, isPart, ineq⟩ := v
+  cases isPart with
+  | none =>
+    cases ineq with
+    | none => simp [varDefAtomsW]
+    | some x => have := cst_sublist x.2; simp only [varDefAtomsW]; sublist_parts
+  | some y =>
+    have := cst_sublist y.2
+    cases ineq with
+    | none => simp only [varDefAtomsW]; sublist_parts
+    | some x => have := cst_sublist x.2; simp only [varDefAtomsW]; sublist_parts
+
+theorem conds_sublist (cs : List CondCst) : (condsAtomsW false true cs).Sublist (condsAtomsW true true cs) := by
+  induction cs with
+  | nil => simp [condsAtomsW]
+  | cons c cs ih =>
+    obtain ⟨kw, lb, expr, rb⟩ := c
+    cases expr with
+    | none => simp only [condsAtomsW, condAtomsW]; sublist_parts
+    | some e => have := cst_sublist e; simp only [condsAtomsW, condAtomsW]; sublist_parts
+
+theorem policy_sublist (p : PolicyCst) : (policyAtomsW false true p).Sublist (policyAtomsW true true p) := by
+  have := varDef_sublist p.principal; have := varDef_sublist p.action; have := varDef_sublist p.resource
+  have := conds_sublist p.conds
+  simp only [policyAtomsW]; sublist_parts
 
 end Cedar.Fmt
